@@ -160,6 +160,21 @@ func c20Forms() []formCase {
 		add("struct-names", "struct-names/"+k, pre+inj("B", "B{}", "NewA, NewPA, wire.Struct(new(B), "+names[k]+")"))
 		add("fields-names", "fields-names/"+k, pre+inj("A", "A{}", "NewB, NewPA, wire.Value(A{X: 2}), wire.FieldsOf(new(B), "+names[k]+")")+"\n")
 	}
+	// ---- providers declared outside the user's sources (standard library): the diagnostic must
+	// still point into the user's file
+	foreign := map[string]string{
+		"std-func-no-result":      "os.Exit",
+		"std-func-dup-params":     "strings.Replace",
+		"std-struct-star":         "wire.Struct(new(url.URL), \"*\")",
+		"std-struct-literal":      "url.URL{}",
+		"std-func-four-results":   "net.SplitHostPort, strconv.ParseFloat",
+		"std-func-second-not-err": "strings.Cut",
+	}
+	for _, k := range sortedStrKeys(foreign) {
+		imp := "import (\n\t\"net\"\n\t\"net/url\"\n\t\"os\"\n\t\"strconv\"\n\t\"strings\"\n\n\t\"github.com/google/wire\"\n)\n\nvar _ = net.SplitHostPort\nvar _ = url.Parse\nvar _ = os.Exit\nvar _ = strconv.Itoa\nvar _ = strings.Cut\n"
+		fs = append(fs, formCase{Name: "foreign-decl/" + k + "/direct", Slot: "foreign-decl", Imports: imp, Body: inj("A", "A{}", "NewA, "+foreign[k])})
+		fs = append(fs, formCase{Name: "foreign-decl/" + k + "/in-unused-set-var", Slot: "foreign-decl", Imports: imp, Body: "var ForeignSet = wire.NewSet(" + foreign[k] + ")\n\n" + inj("A", "A{}", "NewA")})
+	}
 	// ---- struct tags: any string is a legal tag
 	tags := map[string]string{
 		"unterminated-value": "\"wire:\\\"-\"", "no-quotes": "`wire:-`", "key-only": "`wire`", "empty-value": "`wire:\"\"`", "open-quote-only": "`wire:\"`",
